@@ -8,6 +8,10 @@ import (
 	"fmt"
 	"math/big"
 	"sort"
+	"time"
+
+	abci "github.com/tendermint/tendermint/abci/types"
+	tmlog "github.com/tendermint/tendermint/libs/log"
 
 	sdk "github.com/pokt-network/posmint/types"
 	"github.com/pokt-network/posmint/x/auth"
@@ -30,6 +34,7 @@ type AppState struct {
 	OtherDenom bool                // some account holds a denomination other than the stake denom
 	Negative   []string            // addresses with a negative coin
 	AcctErr    []string            // undecodable account records
+	HasKey     map[string]bool     // address hex -> the account record carries a public key
 	Supply     *big.Int
 	SupplyOK   bool
 
@@ -43,6 +48,13 @@ type AppState struct {
 	PrevPower map[string]int64
 	Params    map[string]string // "<subspace>/<key>" -> raw JSON
 	TransientLen int
+	// auxiliary records (missed-block ring, previous-state powers, award/burn queue values, unstaking-queue values)
+	// are read leniently: if their stored form is not the one this harness knows, the keeper's exported readers are
+	// used where they exist, and otherwise the record is "opaque": oracles that need its content are skipped
+	// (counted), oracles that only need its presence still apply. Accounts, supply, validator records and signing
+	// infos are the formats clients depend on: those failing to decode is reported.
+	MissedOpaque, PrevOpaque, AwardsOpaque, BurnsOpaque, QueueOpaque bool
+	AwardCount, BurnCount int
 }
 
 var storeNames = []string{"main", "auth", "pos", "params"}
@@ -135,7 +147,7 @@ func (a *App) Snapshot() (st *AppState, err error) {
 			err = fmt.Errorf("snapshot panic: %v", r)
 		}
 	}()
-	st = &AppState{Raw: a.DumpAll(), Dust: map[string]*big.Int{}, SupplyDust: new(big.Int), Balances: map[string]*big.Int{}, Vals: map[string]posTypes.Validator{},
+	st = &AppState{Raw: a.DumpAll(), HasKey: map[string]bool{}, Dust: map[string]*big.Int{}, SupplyDust: new(big.Int), Balances: map[string]*big.Int{}, Vals: map[string]posTypes.Validator{},
 		Sign: map[string]posTypes.ValidatorSigningInfo{}, Missed: map[string]map[int64]bool{},
 		Awards: map[string]*big.Int{}, Burns: map[string]string{}, PrevPower: map[string]int64{}, Params: map[string]string{}}
 	st.TransientLen = len(st.Raw["transient_params"])
@@ -161,6 +173,9 @@ func (a *App) Snapshot() (st *AppState, err error) {
 				continue
 			}
 			addr := hx(kv.K[1:])
+			if pk := acc.GetPubKey(); pk != nil {
+				st.HasKey[addr] = true
+			}
 			amt := new(big.Int)
 			for _, c := range acc.GetCoins() {
 				if c.Denom == sdk.DefaultStakeDenom {
@@ -199,7 +214,10 @@ func (a *App) Snapshot() (st *AppState, err error) {
 			addr := hx(kv.K[1 : 1+sdk.AddrLen])
 			idx := int64(binary.LittleEndian.Uint64(kv.K[1+sdk.AddrLen:]))
 			var missed bool
-			a.Cdc.MustUnmarshalBinaryLengthPrefixed(kv.V, &missed)
+			if e := a.Cdc.UnmarshalBinaryLengthPrefixed(kv.V, &missed); e != nil {
+				st.MissedOpaque = true
+				continue
+			}
 			if st.Missed[addr] == nil {
 				st.Missed[addr] = map[int64]bool{}
 			}
@@ -209,30 +227,91 @@ func (a *App) Snapshot() (st *AppState, err error) {
 		case posTypes.UnstakingValidatorsKey[0]:
 			st.UnstakeQ = append(st.UnstakeQ, kv)
 		case posTypes.AwardValidatorKey[0]:
+			st.AwardCount++
 			var amt sdk.Int
-			a.Cdc.MustUnmarshalBinaryBare(kv.V, &amt)
+			if e := safely(func() error { return a.Cdc.UnmarshalBinaryBare(kv.V, &amt) }); e != nil {
+				st.AwardsOpaque = true
+				continue
+			}
 			st.Awards[hx(kv.K[1:])] = amt.BigInt()
 		case posTypes.BurnValidatorKey[0]:
+			st.BurnCount++
 			var d sdk.Dec
-			a.Cdc.MustUnmarshalBinaryBare(kv.V, &d)
+			if e := safely(func() error { return a.Cdc.UnmarshalBinaryBare(kv.V, &d) }); e != nil {
+				st.BurnsOpaque = true
+				continue
+			}
 			st.Burns[hx(kv.K[1:])] = d.String()
 		case posTypes.PrevStateValidatorsPowerKey[0]:
 			var p int64
-			a.Cdc.MustUnmarshalBinaryLengthPrefixed(kv.V, &p)
+			if e := safely(func() error { return a.Cdc.UnmarshalBinaryLengthPrefixed(kv.V, &p) }); e != nil {
+				st.PrevOpaque = true
+				continue
+			}
 			st.PrevPower[hx(kv.K[1:])] = p
 		}
 	}
 	for _, kv := range st.Raw["params"] {
 		st.Params[string(kv.K)] = string(kv.V)
 	}
+	qKeyLen := len(posTypes.KeyForUnstakingValidators(time.Unix(0, 0)))
+	for _, kv := range st.UnstakeQ {
+		if _, ok := a.decodeQueue(kv.V); !ok || len(kv.K) != qKeyLen {
+			st.QueueOpaque = true
+		}
+	}
+	if st.MissedOpaque || st.PrevOpaque {
+		a.readThroughKeeper(st)
+	}
 	return st, nil
+}
+
+func safely(f func() error) (err error) {
+	defer func() {
+		if r := recover(); r != nil {
+			err = fmt.Errorf("panic: %v", r)
+		}
+	}()
+	return f()
+}
+
+// readThroughKeeper fills the missed-block rings and the previous-state powers through the pos keeper's exported
+// readers (on a throw-away context over the root multistore: reads only).
+func (a *App) readThroughKeeper(st *AppState) {
+	ctx := sdk.NewContext(a.Store(), abci.Header{}, false, tmlog.NewNopLogger())
+	_ = safely(func() error {
+		if st.MissedOpaque {
+			st.Missed = map[string]map[int64]bool{}
+			for ah, si := range st.Sign {
+				m := map[int64]bool{}
+				a.PK.IterateAndExecuteOverMissedArray(ctx, si.Address, func(i int64, missed bool) bool {
+					if missed {
+						m[i] = true
+					}
+					return false
+				})
+				st.Missed[ah] = m
+			}
+		}
+		if st.PrevOpaque {
+			st.PrevPower = map[string]int64{}
+			for _, kv := range st.Raw["pos"] {
+				if len(kv.K) == 1+sdk.AddrLen && kv.K[0] == posTypes.PrevStateValidatorsPowerKey[0] {
+					st.PrevPower[hx(kv.K[1:])] = a.PK.PrevStateValidatorPower(ctx, sdk.Address(kv.K[1:]))
+				}
+			}
+		}
+		return nil
+	})
 }
 
 func moduleAddrHex(name string) string { return hx(authTypes.NewModuleAddress(name)) }
 
 // UnstakeQueueAddrs decodes a queue entry into its address list.
-func (a *App) decodeQueue(v []byte) []sdk.Address {
+func (a *App) decodeQueue(v []byte) ([]sdk.Address, bool) {
 	var addrs []sdk.Address
-	a.Cdc.MustUnmarshalBinaryLengthPrefixed(v, &addrs)
-	return addrs
+	if e := safely(func() error { return a.Cdc.UnmarshalBinaryLengthPrefixed(v, &addrs) }); e != nil {
+		return nil, false
+	}
+	return addrs, true
 }
